@@ -79,6 +79,8 @@ OMDjson == MdRows(<< <<N1("nul", "z", ""), N1("cnt", "i", "3"), <<"nest", "j", <
 F23num  == MkT(O2, S3, <<<<3, 1, 0>>, <<0, 5, 6>>>>, OMDnum, SMDtxt, "OTU table", "tid1")
 F23tax  == MkT(O2, S3, <<<<0, 0, 4>>, <<1, 0, 0>>>>, OMDtax, NoMd, "Taxon table", "")
 F23json == MkT(O2, S3, <<<<3, 1, 0>>, <<0, 5, 6>>>>, OMDjson, NoMd, "Gene table", "")
+\* header strings with quotes and a backslash (the type token TyQ is concretised as  Ty"pe\ x)
+F23odd  == MkT(O2, S3, <<<<0, 2, 7>>, <<1, 0, 0>>>>, OMDjson, NoMd, "TyQ", "tidq")
 F11     == MkT(<<"o1">>, <<"s1">>, <<<<7>>>>, NoMd, NoMd, "", "")
 F13     == MkT(<<"o1">>, S3, <<<<0, 2, 9>>>>, MdRows(<< <<L1("taxonomy", <<"q">>)>> >>), NoMd, "Metabolite table", "")
 F31     == MkT(O3, <<"s1">>, <<<<4>>, <<0>>, <<-8>>>>, NoMd, MdRows(<< <<S1("k1", "x")>> >>), "", "tid2")
